@@ -249,8 +249,16 @@ def run_check(prop: str, tier: str, seed: int, workers: int | None = None, runs:
     n_runs = runs if runs is not None else mod.RUNS[tier]
     workers = workers or min(int(os.environ.get("VERIF_WORKERS", "8")), os.cpu_count() or 1, max(1, n_runs))
     threads = getattr(mod, "THREADS", 1)
-    timeout_s = float(getattr(mod, "RUN_TIMEOUT_S", 600))
+    timeout_s = float(getattr(mod, "RUN_TIMEOUT_S", 600)) * float(os.environ.get("VERIF_TIMEOUT_SCALE", "2"))  # generous: a timeout is never a verdict
     print(f"[{prop}] tier={tier} VERIF_SEED={seed} runs={n_runs} workers={workers}", flush=True)
+
+    # private, fresh XLA compile-cache directory for this run (workers, determinism probe and replays inherit it); removed at the end
+    own_cache = None
+    if "VERIF_XLA_CACHE_DIR" not in os.environ:
+        import tempfile
+
+        own_cache = tempfile.mkdtemp(prefix=f"fdsim_xla_{prop}_")
+        os.environ["VERIF_XLA_CACHE_DIR"] = own_cache
 
     specs = []
     for i in range(n_runs):
@@ -363,6 +371,11 @@ def run_check(prop: str, tier: str, seed: int, workers: int | None = None, runs:
                 probe_status = "timeout"
     finally:
         pool.close()
+        if own_cache:
+            import shutil
+
+            shutil.rmtree(own_cache, ignore_errors=True)
+            os.environ.pop("VERIF_XLA_CACHE_DIR", None)
 
     wall = time.time() - t_start
     write_evidence(mod, prop, tier, seed, specs, results, n_viol, n_known, probe_status, harness_errors, wall, workers)
